@@ -173,3 +173,103 @@ def when_changed(I):
     w.check(f"{Q}._should_suspend#ensures[documented condition]", Eq(S, Not(Eq(v, stored))), rp)
     w.check(f"{Q}._should_resume#ensures[documented condition]", Eq(I.truth(R) if not isinstance(R, (bool, Sym)) else R, And(allow, Eq(v, stored))), rp)
     w.check("lemma:SuspendWhenChanged.suspend-and-resume-exclusive", Not(And(S, R)), rp)
+
+
+# ---------------------------------------------------------------------------------------- SuspenderBase.__call__
+# State-update contract (DESIGN B): with S = _should_suspend(v), R = _should_resume(v) abstract booleans (callee
+# contracts), the call sets tripped' = True if S, False if (not S and R), and leaves it unchanged otherwise.
+# Lemma (induction over the value sequence, immediate from this step contract): after any sequence of values the
+# suspender is tripped exactly when S held at the most recent value for which S or R held.
+@task("SuspenderBase.__call__", PROP,
+      functions=[f"{M}:SuspenderBase.__call__", f"{M}:SuspenderBase.__make_event", f"{M}:SuspenderBase.__set_event"],
+      expect=[f"{M}:SuspenderBase.__call__#ensures[tripped' = True when suspend condition holds]",
+              f"{M}:SuspenderBase.__call__#ensures[tripped' = False and event released when resume condition holds]",
+              f"{M}:SuspenderBase.__call__#ensures[unchanged when neither condition holds]",
+              f"{M}:SuspenderBase.__call__#ensures[no effect when not installed]"],
+      covers=["suspend path", "resume path", "neither path", "not installed", "event creation failed"],
+      assumptions=["threads: loop.call_soon_threadsafe(f) either has run f before th_ev.wait(0.1) returns or has not (non-deterministic choice)"])
+def suspender_call(I):
+    from pyvc.stdstubs import PartialVal
+    w = I.w
+    Q = f"{M}:SuspenderBase.__call__"
+    sched = []          # callbacks handed to the loop
+    S = w.bool("should_suspend")
+    R = w.bool("should_resume")
+    I.call_hooks[f"{M}:SuspenderBase._should_suspend"] = lambda I_, f, a, k: iter_ret(S)
+    I.call_hooks[f"{M}:SuspenderBase._should_resume"] = lambda I_, f, a, k: iter_ret(R)
+    I.call_hooks[f"{M}:SuspenderBase._get_justification"] = lambda I_, f, a, k: iter_ret("why")
+
+    def call_soon_threadsafe(I_, loop, args, kwargs):
+        f = args[0]
+        sched.append(f)
+        if isinstance(f, Closure) and f.qualname.endswith("really_make_the_event"):
+            if w.choose([True, False], "loop thread ran really_make_the_event in time"):
+                I_.call_value(f)
+        return opaque(I_, "handle", methods={"cancel": lambda *a: None})
+
+    loop = opaque(I, "loop", methods={"call_soon_threadsafe": call_soon_threadsafe, "call_later": lambda *a: None})
+    running = w.bool("RE_is_running")
+    state = opaque(I, "state", attrs={"is_running": running})
+    RE = opaque(I, "RE", attrs={"_loop": loop, "state": state}, methods={"request_suspend": lambda *a: None}, truth=True)
+    w.stubs["threading.Event"] = lambda I_, a, k: _thread_event(I_)
+    w.stubs["asyncio.Event"] = lambda I_, a, k: opaque(I_, I_.w.fresh("asyncio_event"), methods={"wait": lambda *a: None, "set": lambda *a: None}, truth=True)
+    installed = w.choose([True, False], "installed (RE is not None)")
+    has_ev = w.choose([False, True], "event already exists")
+    ev0 = opaque(I, "ev0", methods={"wait": lambda *a: None, "set": lambda *a: None}, truth=True) if has_ev else None
+    tripped0 = w.bool("tripped0")
+    from pyvc.stdstubs import _lock
+    o = bare_obj(I, "SuspenderBase", RE=RE if installed else None, _ev=ev0, _tripped=tripped0, _lock=_lock(I, [], {}),
+                 _sleep=w.real("sleep"), _pre_plan=None, _post_plan=None, _sig=signal(I), _tripped_message="")
+    v = w.real("value")
+    res = catch(I, I.getattr(o, "__call__"), v)
+    rp = {"replay": "suspenders.call_step"}
+    if not installed:
+        w.cover("not installed")
+        w.check(f"{Q}#ensures[no effect when not installed]",
+                And(res[0] == "ok", Eq(o._tripped, tripped0), o._ev is ev0, len(sched) == 0), rp)
+        return
+    if res[0] == "raise":
+        # only licensed exception: the asyncio event could not be created in time
+        w.cover("event creation failed")
+        w.check(f"{Q}#raises[RuntimeError only when the event could not be created; tripped already True]",
+                And(exc_is(I, res[1], "RuntimeError"), S, not has_ev, o._ev is None, Eq(o._tripped, True)), rp)
+        return
+    if I.w.branch(S, "S"):
+        w.cover("suspend path")
+        w.check(f"{Q}#ensures[tripped' = True when suspend condition holds]", Eq(o._tripped, True), rp)
+        reqs = [f for f in sched if isinstance(f, PartialVal) and getattr(f.f, "name", None) == "request_suspend"]
+        if has_ev:
+            w.check(f"{Q}#ensures[existing event kept, no second suspension request]", And(o._ev is ev0, len(reqs) == 0), rp)
+        else:
+            ok_req = len(reqs) == 1 and reqs[0].args[0].obj is o._ev and reqs[0].args[0].name == "wait" if reqs else False
+            w.check(f"{Q}#ensures[new event; suspension requested once iff the engine is running]",
+                    And(o._ev is not None, ite(running, ok_req, len(reqs) == 0)), rp)
+    elif I.w.branch(R, "R"):
+        w.cover("resume path")
+        released = [f for f in sched if isinstance(f, Closure) and f.qualname.endswith("__set_event.local")]
+        w.check(f"{Q}#ensures[tripped' = False and event released when resume condition holds]",
+                And(Eq(o._tripped, False), o._ev is None, len(released) == (1 if has_ev else 0), len(sched) == len(released)), rp)
+    else:
+        w.cover("neither path")
+        w.check(f"{Q}#ensures[unchanged when neither condition holds]",
+                And(Eq(o._tripped, tripped0), o._ev is ev0, len(sched) == 0), rp)
+
+
+def iter_ret(v):
+    return v
+    yield
+
+
+def _thread_event(I):
+    box = {"set": False}
+
+    def set_(I_, o, a, k):
+        box["set"] = True
+
+    def wait(I_, o, a, k):
+        return box["set"]
+    return opaque(I, I.w.fresh("th_ev"), methods={"set": set_, "wait": wait})
+
+
+def bare_obj(I, cls, **attrs):
+    return Obj(I.P.class_info(M, cls), attrs)
